@@ -277,7 +277,7 @@ func (c c08Cfg) apply(r *rig) {
 
 func TestVerifC08Headers(t *testing.T) {
 	L := ev.Begin("C08", "c08-headers", "exploration",
-		"header-related configuration (client-ip header none/custom/X-Real-Ip/X-Forwarded-For x TLS header none/set (canonical and non-canonical spellings) x LocalIP/HSTS variants x route host option none/name/dst) x connection plain/TLS x every subset of 8 fabio-managed headers forged by the client (2^8) plus repeated, lower-case, empty and blank-line variants x Host with/without port x IPv4/IPv6 peer, served by the real HTTPProxy to a recording upstream; oracle = the six clauses of the statement. non-trivial = at least one forged header or a TLS connection")
+		"header-related configuration (client-ip header none/custom/X-Real-Ip/X-Forwarded-For x TLS header none/set (canonical and non-canonical spellings) x LocalIP/HSTS variants x route host option none/name/dst) x connection plain/TLS x every subset of 8 fabio-managed headers forged by the client (2^8) plus repeated, lower-case, empty and blank-line variants x Host with/without port and as IPv6 literal x IPv4/IPv6 peer x a Connection header that names the managed headers as hop-by-hop, served by the real HTTPProxy to a recording upstream; oracle = the six clauses of the statement. non-trivial = at least one forged header or a TLS connection")
 	cfgs := c08Configs()
 	sets := c08HeaderSets(true)
 	type job struct {
@@ -286,17 +286,26 @@ func TestVerifC08Headers(t *testing.T) {
 		v    c08Hdrs
 		host string
 		peer string
+		hop  bool
 	}
 	var jobs []job
 	for _, c := range cfgs {
 		for _, conn := range []c08Conn{c08Plain, c08TLS} {
 			for _, v := range sets {
-				for hi, h := range []string{"client.example", "client.example:8080"} {
+				for hi, h := range []string{"client.example", "client.example:8080", "[2001:db8::5]:8080", "[2001:db8::5]"} {
 					peer := "10.9.8.7"
-					if hi == 1 {
+					if hi%2 == 1 {
 						peer = "2001:db8::1"
 					}
-					jobs = append(jobs, job{c, conn, v, h, peer})
+					if hi >= 2 && (len(jobs)%7 != 0) {
+						continue // IPv6 literal hosts: every seventh combination
+					}
+					jobs = append(jobs, job{c, conn, v, h, peer, false})
+					if len(jobs)%5 == 0 {
+						// the client declares the managed headers hop-by-hop (Connection: <names>): a proxy drops
+						// headers named there - the ones fabio supplies must reach the upstream all the same
+						jobs = append(jobs, job{c, conn, v, h, peer, true})
+					}
 				}
 			}
 		}
@@ -310,7 +319,18 @@ func TestVerifC08Headers(t *testing.T) {
 		if j.conn == c08TLS {
 			cs = &tls.ConnectionState{Version: tls.VersionTLS12, CipherSuite: tls.TLS_ECDHE_RSA_WITH_AES_128_GCM_SHA256, HandshakeComplete: true}
 		}
-		raw := rawRequest("GET", "/x", j.host, c08Headers(j.v, j.cfg, ""), nil, false)
+		hdrs := c08Headers(j.v, j.cfg, "")
+		if j.hop {
+			names := []string{"X-Forwarded-For", "X-Real-Ip", "X-Forwarded-Proto", "X-Forwarded-Port", "X-Forwarded-Host", "Forwarded"}
+			if j.cfg.clientIP != "" {
+				names = append(names, j.cfg.clientIP)
+			}
+			if j.cfg.tlsHdr != "" {
+				names = append(names, j.cfg.tlsHdr)
+			}
+			hdrs = append(hdrs, [2]string{"Connection", strings.Join(names, ", ")})
+		}
+		raw := rawRequest("GET", "/x", j.host, hdrs, nil, false)
 		L.Case()
 		var rec *httptest.ResponseRecorder
 		var s *seen
@@ -375,25 +395,34 @@ func TestVerifC08Websocket(t *testing.T) {
 			srv = r.wsTLS
 		}
 		addr := srv.Listener.Addr().String()
-		var c net.Conn
-		var err error
-		if j.conn == c08WSS {
-			c, err = tls.Dial("tcp", addr, &tls.Config{InsecureSkipVerify: true})
-		} else {
-			c, err = net.Dial("tcp", addr)
-		}
-		if err != nil {
-			panic("VERIF-INFRA: dial: " + err.Error())
-		}
-		defer c.Close()
 		host := "client.example:8080"
 		raw := rawRequest("GET", "/ws", host, c08Headers(j.v, j.cfg, j.ws), nil, false)
-		r.mu.Lock()
-		r.last = nil
-		r.mu.Unlock()
-		c.SetDeadline(time.Now().Add(20 * time.Second))
-		c.Write(raw)
-		resp, err := http.ReadResponse(bufio.NewReader(c), nil)
+		var resp *http.Response
+		var err error
+		// fabio gives the upstream one second (hard-coded) to answer the upgrade: on a machine busy with
+		// other jobs a single attempt may miss it. That is an environment answer, not a verdict: up to 4 attempts.
+		for attempt := 0; attempt < 4; attempt++ {
+			var c net.Conn
+			if j.conn == c08WSS {
+				c, err = tls.Dial("tcp", addr, &tls.Config{InsecureSkipVerify: true})
+			} else {
+				c, err = net.Dial("tcp", addr)
+			}
+			if err != nil {
+				panic("VERIF-INFRA: dial: " + err.Error())
+			}
+			defer c.Close()
+			r.mu.Lock()
+			r.last = nil
+			r.mu.Unlock()
+			c.SetDeadline(time.Now().Add(20 * time.Second))
+			c.Write(raw)
+			resp, err = http.ReadResponse(bufio.NewReader(c), nil)
+			if err == nil {
+				break
+			}
+			time.Sleep(200 * time.Millisecond)
+		}
 		L.Case()
 		L.NontrivialKey(fmt.Sprint(j))
 		d := map[string]interface{}{"config": fmt.Sprintf("%+v", j.cfg), "conn": j.conn.String(), "upgrade": j.ws, "client_headers": c08Headers(j.v, j.cfg, j.ws)}
